@@ -30,7 +30,8 @@ REQUIRED_MONITORS = ["equals_stated_combination", "order_independent", "kernel_r
 REQUIRED_BUCKETS = {"quick": ["op:+", "op:*", "op:@", "nested:product-in-sum", "dim:1d", "dim:2d", "zero:some-component",
                               "zero:first-factor", "dispersity:>=2-components", "magnetic", "vector-component",
                               "python-component", "oriented-component", "lane:asan", "magnetic:all-sld-components", "magnetic:with-nonmagnetic-bystander",
-                              "magnetic:with-python-bystander", "component-with-empty-mesh"]}
+                              "magnetic:with-python-bystander", "component-with-empty-mesh",
+                              "no-sld-parameter-in-mixture"]}
 REQUIRED_BUCKETS["thorough"] = REQUIRED_BUCKETS["quick"]
 
 SFACTORS = ["hardsphere", "hayter_msa", "squarewell", "stickyhardsphere"]
@@ -89,6 +90,14 @@ def gen_expr(rng, force=None):
     if force.get("oriented"):
         om = sas.oriented_models()
         terms[-1][-1] = om[int(rng.integers(len(om)))]
+    if force.get("nosld"):
+        # no component with an SLD parameter (then the mixture has no magnetic block at all), at least one compiled
+        # component with a dispersible parameter
+        nos = [m for m in leaf_pool() if not any(p.type == "sld" for p in sas.info(m).parameters.kernel_parameters)]
+        disp = [m for m in nos if not sas.is_python(m) and any(p.polydisperse for p in sas.info(m).parameters.kernel_parameters)]
+        terms = [[nos[int(rng.integers(len(nos)))] for _ in t] for t in terms]
+        terms[0][0] = disp[int(rng.integers(len(disp)))]
+        return terms
     if force.get("python"):
         py = [m for m in leaf_pool() if sas.is_python(m)]
         terms[-1][0] = py[int(rng.integers(len(py)))]
@@ -106,6 +115,7 @@ def gen_cases(tier, seed):
               {"at": True}, {"oriented": True}, {"python": True}, {"shape": ["LLL"], "zero_first": True}, {},
               {"mag": "all"}, {"mag": "partial", "shape": ["L", "L"]}, {"mag": "all", "shape": ["LL", "L"]},
               {"mag": "all", "shape": ["L", "L"], "python": True}, {"mag": "all", "shape": ["LL"], "python": True},
+              {"nosld": True, "shape": ["L", "L"]}, {"nosld": True, "shape": ["LL"]}, {"nosld": True, "shape": ["L", "LL"]},
               {"empty": True, "shape": ["L", "L"]}, {"empty": True, "shape": ["L", "L", "L"]}, {"empty": True, "shape": ["LL", "L"]}]
     for k in range(n):
         cases.append({"id": "expr/%04d" % k, "k": k, "seed": seed, "force": forces[k % len(forces)],
@@ -347,6 +357,8 @@ def run_case(case, rec):
     bystander = [f for row in leaves for f, i, lp, tags in row
                  if "mag" not in tags and not sas.is_python(i) and i.parameters.nmagnetic > 0]
     pybystander = [f for row in leaves for f, i, lp, tags in row if "@" not in f and sas.is_python(i)]
+    if not any(p.type == "sld" for p in cinfo.parameters.kernel_parameters):
+        rec.bucket("no-sld-parameter-in-mixture")
     if any("empty" in t for t in tags_all):
         rec.bucket("component-with-empty-mesh")
     if anymag and pybystander:
@@ -381,14 +393,22 @@ def run_case(case, rec):
         seq.append(dict(cpars))
         okr = True
         wit = None
+        handed_out = []
         for step, pp in enumerate(seq):
-            reused = np.asarray(direct_model.call_kernel(kern, dict(pp)), float)
+            raw_result = direct_model.call_kernel(kern, dict(pp))
+            reused = np.array(raw_result, float)
+            handed_out.append((step, raw_result, reused.copy()))
             fresh = evaluate(expr, pp, qv)
             if not np.array_equal(reused, fresh, equal_nan=True):
                 okr, wit = False, {"step": step, "changed": [k for k in pp if pp[k] != cpars.get(k)],
                                    "reused_kernel": reused, "fresh_kernel": fresh}
                 break
         rec.check("kernel_reuse_consistent", okr, None if okr else dict(ctx, **wit))
+        # results handed out earlier are not rewritten by later evaluations of the same kernel
+        for step, obj, was in handed_out:
+            same = bool(np.array_equal(np.asarray(obj, float), was, equal_nan=True))
+            rec.check("earlier_results_not_overwritten", same,
+                      None if same else dict(ctx, step=step, was=was, now=np.asarray(obj, float)))
         kern.release()
     # ---- order independence: reverse the terms and the factors within each term
     rterms = [list(reversed(t)) for t in reversed(terms)]
